@@ -914,6 +914,709 @@ theorem C15_channels_in_range_update (u : Upd) (c d : Color) (p : UpdArgs) (hc :
             · cases h
               exact hc
 
+/-! ## 12. change-color / adjust-color / scale-color compose as documented -/
+
+/-- only the RGB-group arguments (and possibly alpha) are present -/
+def UpdArgs.onlyRgb (p : UpdArgs) : Prop :=
+  p.hue = none ∧ p.saturation = none ∧ p.lightness = none ∧ p.whiteness = none ∧ p.blackness = none
+/-- only the HSL-group arguments (and possibly alpha) are present -/
+def UpdArgs.onlyHsl (p : UpdArgs) : Prop :=
+  p.red = none ∧ p.green = none ∧ p.blue = none ∧ p.whiteness = none ∧ p.blackness = none
+/-- only the HWB-group arguments (hue, whiteness, blackness, possibly alpha) are present -/
+def UpdArgs.onlyHwb (p : UpdArgs) : Prop :=
+  p.red = none ∧ p.green = none ∧ p.blue = none ∧ p.saturation = none ∧ p.lightness = none
+/-- only alpha may be present -/
+def UpdArgs.onlyAlpha (p : UpdArgs) : Prop :=
+  p.red = none ∧ p.green = none ∧ p.blue = none ∧ p.hue = none ∧ p.saturation = none ∧ p.lightness = none ∧
+  p.whiteness = none ∧ p.blackness = none
+
+theorem updateValue_none (cur max : Rat) (u : Upd) : updateValue cur none max u = cur := rfl
+theorem updateValue_change (cur x max : Rat) : updateValue cur (some x) max .change = x := rfl
+theorem updateValue_adjust (cur x max : Rat) : updateValue cur (some x) max .adjust = clamp (x + cur) 0 max := rfl
+theorem updateValue_scale (cur x max : Rat) :
+    updateValue cur (some x) max .scale = cur + (if x > 0 then max - cur else cur) * x := rfl
+
+/-- Which constructor `update_components` calls, by argument group (other.rs:197–239). -/
+theorem updatePlan_groups (u : Upd) (c : Color) (p : UpdArgs) :
+    (p.onlyRgb → (p.red.isSome || p.green.isSome || p.blue.isSome) = true →
+      updatePlan u c p = .ok (.rgb (updateValue c.red p.red 255 u) (updateValue c.green p.green 255 u)
+        (updateValue c.blue p.blue 255 u) (updateValue c.alpha p.alpha 1 u))) ∧
+    (p.onlyHwb → (p.whiteness.isSome || p.blackness.isSome) = true →
+      updatePlan u c p = .ok (.hwb (if u = .change then p.hue.getD c.hue else c.hue + p.hue.getD 0)
+        (updateValue c.whiteness p.whiteness 1 u * 100) (updateValue c.blackness p.blackness 1 u * 100)
+        (updateValue c.alpha p.alpha 1 u))) ∧
+    (p.onlyHsl → (p.hue.isSome || p.saturation.isSome || p.lightness.isSome) = true →
+      updatePlan u c p = .ok (.hsl (if u = .change then p.hue.getD c.asHsla.1 else c.asHsla.1 + p.hue.getD 0)
+        (updateValue c.asHsla.2.1 p.saturation 1 u) (updateValue c.asHsla.2.2.1 p.lightness 1 u)
+        (updateValue c.asHsla.2.2.2 p.alpha 1 u))) ∧
+    (p.onlyAlpha → p.alpha.isSome = true → updatePlan u c p = .ok (.alpha (updateValue c.alpha p.alpha 1 u))) ∧
+    (p.onlyAlpha → p.alpha = none → updatePlan u c p = .ok .same) := by
+  refine ⟨?_, ?_, ?_, ?_, ?_⟩
+  · rintro ⟨h1, h2, h3, h4, h5⟩ hr
+    simp [updatePlan, h1, h2, h3, h4, h5, hr]
+  · rintro ⟨h1, h2, h3, h4, h5⟩ hw
+    simp [updatePlan, h1, h2, h3, h4, h5, hw]
+  · rintro ⟨h1, h2, h3, h4, h5⟩ hh
+    generalize hq : c.asHsla = t
+    obtain ⟨h, s, l, a⟩ := t
+    simp only [updatePlan, h1, h2, h3, h4, h5, hq]
+    simp at hh ⊢
+    rcases hh with (hh | hh) | hh <;> (intro e1 e2 e3; simp_all)
+  · rintro ⟨h1, h2, h3, h4, h5, h6, h7, h8⟩ ha
+    simp [updatePlan, h1, h2, h3, h4, h5, h6, h7, h8, ha]
+  · rintro ⟨h1, h2, h3, h4, h5, h6, h7, h8⟩ ha
+    simp [updatePlan, h1, h2, h3, h4, h5, h6, h7, h8, ha]
+
+theorem clamp_idem (x lo hi : Rat) (h : lo ≤ hi) : clamp (clamp x lo hi) lo hi = clamp x lo hi := by
+  have ⟨a, b⟩ := clamp_bounds x lo hi h; exact clamp_id a b
+
+theorem fromHsla_clamp_light (h s l a : Rat) : fromHsla h s (clamp l 0 1) a = fromHsla h s l a := by
+  have cl := clamp_idem l 0 1 (by decide +kernel)
+  simp only [fromHsla, hslToRgbExact, cl]
+
+theorem fromHsla_clamp_sat (h s l a : Rat) : fromHsla h (clamp s 0 1) l a = fromHsla h s l a := by
+  have cs := clamp_idem s 0 1 (by decide +kernel)
+  simp only [fromHsla, hslToRgbExact, cs]
+
+theorem fromRgba_clamp_alpha (r g b a : Rat) : fromRgba r g b (clamp a 0 1) = fromRgba r g b a := by
+  simp only [fromRgba, clamp_idem a 0 1 (by decide +kernel)]
+
+theorem add_zero' (x : Rat) : x + 0 = x := by grind
+
+/-- **(4)** lighten / darken / saturate / desaturate / adjust-hue / opacify / transparentize *are* the
+    corresponding single-argument adjust-color calls — as values of the model, for every colour and
+    every amount (the built-ins differ only in the argument ranges they accept: lighten… take 0…100,
+    adjust-color takes −100…100). -/
+theorem C15_functions_are_adjust_color (c : Color) (x : Rat) :
+    updateComponents .adjust c { lightness := some x } = .ok (lighten c x) ∧
+    updateComponents .adjust c { lightness := some (-x) } = .ok (darken c x) ∧
+    updateComponents .adjust c { saturation := some x } = .ok (saturate c x) ∧
+    updateComponents .adjust c { saturation := some (-x) } = .ok (desaturate c x) ∧
+    updateComponents .adjust c { hue := some x } = .ok (adjustHue c x) ∧
+    updateComponents .adjust c { alpha := some x } = .ok (fadeIn c x) ∧
+    updateComponents .adjust c { alpha := some (-x) } = .ok (fadeOut c x) := by
+  have ⟨e1, e2, e3, e4, e5, _⟩ := hslFns_eq c x
+  have G := fun p => updatePlan_groups .adjust c p
+  refine ⟨?_, ?_, ?_, ?_, ?_, ?_, ?_⟩
+  · rw [updateComponents, (G _).2.2.1 ⟨rfl, rfl, rfl, rfl, rfl⟩ rfl, e1]
+    simp only [Except.map, execPlan, updateValue, Option.getD, add_zero', fromHsla_clamp_light]
+    congr 2; grind
+  · rw [updateComponents, (G _).2.2.1 ⟨rfl, rfl, rfl, rfl, rfl⟩ rfl, e2]
+    simp only [Except.map, execPlan, updateValue, Option.getD, add_zero', fromHsla_clamp_light]
+    congr 2; grind
+  · rw [updateComponents, (G _).2.2.1 ⟨rfl, rfl, rfl, rfl, rfl⟩ rfl, e3]
+    simp only [Except.map, execPlan, updateValue, Option.getD, add_zero']
+    congr 3; grind
+  · rw [updateComponents, (G _).2.2.1 ⟨rfl, rfl, rfl, rfl, rfl⟩ rfl, e4]
+    simp only [Except.map, execPlan, updateValue, Option.getD, add_zero']
+    congr 3; grind
+  · rw [updateComponents, (G _).2.2.1 ⟨rfl, rfl, rfl, rfl, rfl⟩ rfl, e5]
+    simp only [Except.map, execPlan, updateValue, Option.getD]
+    rfl
+  · rw [updateComponents, (G _).2.2.2.1 ⟨rfl, rfl, rfl, rfl, rfl, rfl, rfl, rfl⟩ rfl]
+    simp only [Except.map, execPlan, updateValue, withAlpha, fadeIn, fromRgba_clamp_alpha]
+    congr 2; grind
+  · rw [updateComponents, (G _).2.2.2.1 ⟨rfl, rfl, rfl, rfl, rfl, rfl, rfl, rfl⟩ rfl]
+    simp only [Except.map, execPlan, updateValue, withAlpha, fadeOut, fromRgba_clamp_alpha]
+    congr 2; grind
+
+example : updateComponents .adjust (newRgba 18 52 87 1 .infer) { lightness := some (1/10) } =
+    .ok (lighten (newRgba 18 52 87 1 .infer) (1/10)) := (C15_functions_are_adjust_color _ _).1
+
+/-- change-color: the new value of one component -/
+def changed (cur : Rat) (v : Option Rat) : Rat := v.getD cur
+/-- adjust-color: the new value of one component (`max` is 255 for channels, 1 for the others) -/
+def adjusted (cur : Rat) (v : Option Rat) (max : Rat) : Rat :=
+  match v with | some x => clamp (x + cur) 0 max | none => cur
+/-- scale-color: the new value of one component, `x` already divided by 100 -/
+def scaled (cur : Rat) (v : Option Rat) (max : Rat) : Rat :=
+  match v with | some x => cur + (if x > 0 then max - cur else cur) * x | none => cur
+
+theorem updateValue_eq (cur : Rat) (v : Option Rat) (max : Rat) :
+    updateValue cur v max .change = changed cur v ∧ updateValue cur v max .adjust = adjusted cur v max ∧
+    updateValue cur v max .scale = scaled cur v max := by
+  cases v <;> exact ⟨rfl, rfl, rfl⟩
+
+/-- the channel `update_rgb` stores: rounded, and unchanged by `from_rgba`'s clamp when in range -/
+theorem stored_chan {v : Rat} (h0 : 0 ≤ v) (h1 : v ≤ 255) : clamp (fuzzyRound v) 0 255 = fuzzyRound v :=
+  clamp_chanOk (chanOk_fuzzyRound h0 h1)
+
+/-- components given to change-color are in the ranges `check_num` accepts -/
+def UpdArgs.changeOk (p : UpdArgs) : Prop :=
+  (∀ x, p.red = some x → 0 ≤ x ∧ x ≤ 255) ∧ (∀ x, p.green = some x → 0 ≤ x ∧ x ≤ 255) ∧
+  (∀ x, p.blue = some x → 0 ≤ x ∧ x ≤ 255) ∧ (∀ x, p.alpha = some x → 0 ≤ x ∧ x ≤ 1)
+
+theorem changed_bounds {cur lo hi : Rat} {v : Option Rat} (hc : lo ≤ cur ∧ cur ≤ hi)
+    (hv : ∀ x, v = some x → lo ≤ x ∧ x ≤ hi) : lo ≤ changed cur v ∧ changed cur v ≤ hi := by
+  cases v with
+  | none => exact hc
+  | some x => exact hv x rfl
+
+theorem changed_chan {cur : Rat} (hc : chanOk cur = true) (v : Option Rat) :
+    fuzzyRound (changed cur v) = (v.map fuzzyRound).getD cur := by
+  cases v with
+  | none => exact fuzzyRound_of_isInt (chanOk_bounds hc).1
+  | some x => rfl
+
+/-- **(1) change-color sets exactly the named components.**  No argument: identity.  RGB group: each
+    given channel becomes its (rounded) argument, the others and an absent alpha are kept.  HSL group:
+    `from_hsla` of the given components and the colour's own `as_hsla` values for the rest.  HWB group:
+    `from_hwb` of the given components and the colour's own hue()/whiteness()/blackness() for the rest.
+    Alpha alone: channels kept. -/
+theorem C15_change_color_sets_exactly (c : Color) (p : UpdArgs) (hw : c.wf = true) (hp : p.changeOk) :
+    updateComponents .change c {} = .ok c ∧
+    (p.onlyRgb → (p.red.isSome || p.green.isSome || p.blue.isSome) = true →
+      ∃ d, updateComponents .change c p = .ok d ∧ d.r = (p.red.map fuzzyRound).getD c.r ∧
+        d.g = (p.green.map fuzzyRound).getD c.g ∧ d.b = (p.blue.map fuzzyRound).getD c.b ∧ d.a = p.alpha.getD c.alpha) ∧
+    (p.onlyHsl → (p.hue.isSome || p.saturation.isSome || p.lightness.isSome) = true →
+      updateComponents .change c p = .ok (fromHsla (p.hue.getD c.asHsla.1) (p.saturation.getD c.asHsla.2.1)
+        (p.lightness.getD c.asHsla.2.2.1) (p.alpha.getD c.alpha))) ∧
+    (p.onlyHwb → (p.whiteness.isSome || p.blackness.isSome) = true →
+      updateComponents .change c p = .ok (fromHwb (p.hue.getD c.hue) (p.whiteness.getD c.whiteness * 100)
+        (p.blackness.getD c.blackness * 100) (p.alpha.getD c.alpha))) ∧
+    (p.onlyAlpha → ∀ a, p.alpha = some a →
+      ∃ d, updateComponents .change c p = .ok d ∧ d.r = c.r ∧ d.g = c.g ∧ d.b = c.b ∧ d.a = a) := by
+  have ⟨cr, cg, cb⟩ := wf_chan hw
+  have ⟨er, eg, eb⟩ := wf_red hw
+  have ⟨a0, a1⟩ := wf_alpha hw
+  have ⟨_, r0, r1⟩ := chanOk_bounds cr
+  have ⟨_, g0, g1⟩ := chanOk_bounds cg
+  have ⟨_, b0, b1⟩ := chanOk_bounds cb
+  obtain ⟨pr, pg, pb, pa⟩ := hp
+  have G := updatePlan_groups .change c p
+  refine ⟨?_, ?_, ?_, ?_, ?_⟩
+  · rw [updateComponents, (updatePlan_groups .change c {}).2.2.2.2 ⟨rfl, rfl, rfl, rfl, rfl, rfl, rfl, rfl⟩ rfl]; rfl
+  · intro ho hs
+    refine ⟨_, by rw [updateComponents, G.1 ho hs]; rfl, ?_⟩
+    simp only [execPlan, fromRgba, newRgba, (updateValue_eq _ _ _).1, er, eg, eb]
+    have br := changed_bounds (v := p.red) ⟨r0, r1⟩ pr
+    have bg := changed_bounds (v := p.green) ⟨g0, g1⟩ pg
+    have bb := changed_bounds (v := p.blue) ⟨b0, b1⟩ pb
+    have ba := changed_bounds (v := p.alpha) ⟨a0, a1⟩ pa
+    rw [stored_chan br.1 br.2, stored_chan bg.1 bg.2, stored_chan bb.1 bb.2, clamp_id ba.1 ba.2,
+      changed_chan cr, changed_chan cg, changed_chan cb]
+    refine ⟨?_, ?_, ?_, ?_⟩ <;> first | trivial | rfl
+  · intro ho hs
+    rw [updateComponents, G.2.2.1 ho hs]
+    simp only [Except.map, execPlan, (updateValue_eq _ _ _).1, changed, if_true, asHsla_alpha]
+  · intro ho hs
+    rw [updateComponents, G.2.1 ho hs]
+    simp only [Except.map, execPlan, (updateValue_eq _ _ _).1, changed, if_true]
+  · intro ho a ha
+    have hs : p.alpha.isSome = true := by rw [ha]; rfl
+    refine ⟨_, by rw [updateComponents, G.2.2.2.1 ho hs]; rfl, ?_⟩
+    have ⟨x0, x1⟩ := pa a ha
+    simp only [execPlan, withAlpha, fromRgba, newRgba, (updateValue_eq _ _ _).1, changed, ha, Option.getD, er, eg, eb,
+      clamp_chanOk cr, clamp_chanOk cg, clamp_chanOk cb, clamp_id x0 x1]
+    refine ⟨?_, ?_, ?_, ?_⟩ <;> first | trivial | rfl
+
+theorem adjusted_bounds {cur max : Rat} (v : Option Rat) (h0 : 0 ≤ cur) (h1 : cur ≤ max) :
+    0 ≤ adjusted cur v max ∧ adjusted cur v max ≤ max := by
+  cases v with
+  | none => exact ⟨h0, h1⟩
+  | some x => exact clamp_bounds _ 0 max (by grind)
+
+/-- **(2) adjust-color adds the amounts and clamps to the component's range.**  RGB group: each given
+    channel becomes round(clamp(amount + channel, 0, 255)); HSL group: hue + amount (taken mod 360 by
+    `from_hsla`), saturation/lightness clamp(amount + current, 0, 1); HWB group likewise on
+    hue()/whiteness()/blackness(); alpha clamp(amount + alpha, 0, 1).  Components not named are kept. -/
+theorem C15_adjust_color_adds_and_clamps (c : Color) (p : UpdArgs) (hw : c.wf = true) :
+    (p.onlyRgb → (p.red.isSome || p.green.isSome || p.blue.isSome) = true →
+      ∃ d, updateComponents .adjust c p = .ok d ∧ d.r = fuzzyRound (adjusted c.r p.red 255) ∧
+        d.g = fuzzyRound (adjusted c.g p.green 255) ∧ d.b = fuzzyRound (adjusted c.b p.blue 255) ∧
+        d.a = adjusted c.alpha p.alpha 1) ∧
+    (p.onlyHsl → (p.hue.isSome || p.saturation.isSome || p.lightness.isSome) = true →
+      updateComponents .adjust c p = .ok (fromHsla (c.asHsla.1 + p.hue.getD 0) (adjusted c.asHsla.2.1 p.saturation 1)
+        (adjusted c.asHsla.2.2.1 p.lightness 1) (adjusted c.alpha p.alpha 1))) ∧
+    (p.onlyHwb → (p.whiteness.isSome || p.blackness.isSome) = true →
+      updateComponents .adjust c p = .ok (fromHwb (c.hue + p.hue.getD 0) (adjusted c.whiteness p.whiteness 1 * 100)
+        (adjusted c.blackness p.blackness 1 * 100) (adjusted c.alpha p.alpha 1))) ∧
+    (p.onlyAlpha → ∀ a, p.alpha = some a →
+      ∃ d, updateComponents .adjust c p = .ok d ∧ d.r = c.r ∧ d.g = c.g ∧ d.b = c.b ∧ d.a = clamp (a + c.alpha) 0 1) := by
+  have ⟨cr, cg, cb⟩ := wf_chan hw
+  have ⟨er, eg, eb⟩ := wf_red hw
+  have ⟨a0, a1⟩ := wf_alpha hw
+  have ⟨_, r0, r1⟩ := chanOk_bounds cr
+  have ⟨_, g0, g1⟩ := chanOk_bounds cg
+  have ⟨_, b0, b1⟩ := chanOk_bounds cb
+  have G := updatePlan_groups .adjust c p
+  have ne : ¬ (Upd.adjust = Upd.change) := by decide
+  refine ⟨?_, ?_, ?_, ?_⟩
+  · intro ho hs
+    refine ⟨_, by rw [updateComponents, G.1 ho hs]; rfl, ?_⟩
+    simp only [execPlan, fromRgba, newRgba, (updateValue_eq _ _ _).2.1, er, eg, eb]
+    have br := adjusted_bounds p.red r0 r1
+    have bg := adjusted_bounds p.green g0 g1
+    have bb := adjusted_bounds p.blue b0 b1
+    have ba := adjusted_bounds p.alpha a0 a1
+    rw [stored_chan br.1 br.2, stored_chan bg.1 bg.2, stored_chan bb.1 bb.2, clamp_id ba.1 ba.2]
+    refine ⟨?_, ?_, ?_, ?_⟩ <;> first | trivial | rfl
+  · intro ho hs
+    rw [updateComponents, G.2.2.1 ho hs]
+    simp only [Except.map, execPlan, (updateValue_eq _ _ _).2.1, if_neg ne, asHsla_alpha]
+  · intro ho hs
+    rw [updateComponents, G.2.1 ho hs]
+    simp only [Except.map, execPlan, (updateValue_eq _ _ _).2.1, if_neg ne]
+  · intro ho a ha
+    have hs : p.alpha.isSome = true := by rw [ha]; rfl
+    refine ⟨_, by rw [updateComponents, G.2.2.2.1 ho hs]; rfl, ?_⟩
+    have ⟨x0, x1⟩ := clamp_bounds (a + c.alpha) 0 1 (by decide +kernel)
+    simp only [execPlan, withAlpha, fromRgba, newRgba, (updateValue_eq _ _ _).2.1, adjusted, ha, er, eg, eb,
+      clamp_chanOk cr, clamp_chanOk cg, clamp_chanOk cb, clamp_id x0 x1]
+    refine ⟨?_, ?_, ?_, ?_⟩ <;> first | trivial | rfl
+
+/-- channels of a colour without stored HSL determine hue()/whiteness()/blackness() -/
+theorem hwb_exact_of (c : Color) (hw : c.wf = true) (hn : c.hsl = none) :
+    hwbToRgbExact c.hue (c.whiteness * 100) (c.blackness * 100) = (c.r, c.g, c.b) := by
+  have ⟨cr, cg, cb⟩ := wf_chan hw
+  obtain ⟨nr, hnr, enr⟩ := chanOk_nat cr
+  obtain ⟨ng, hng, eng⟩ := chanOk_nat cg
+  obtain ⟨nb, hnb, enb⟩ := chanOk_nat cb
+  have ⟨r0, r1⟩ := unit_of_nat hnr
+  have ⟨g0, g1⟩ := unit_of_nat hng
+  have ⟨b0, b1⟩ := unit_of_nat hnb
+  obtain ⟨e1, _, _, e4, e5⟩ := accessors_eq nr ng nb
+  have rt := hwb_roundtripE r0 r1 g0 g1 b0 b1
+  have h1 : c.hue = (newRgba (nr : Rat) (ng : Rat) (nb : Rat) 1 .infer).hue := by
+    simp only [Color.hue, hn, Color.red, Color.green, Color.blue, enr, eng, enb, newRgba]
+    try rfl
+  have h2 : c.whiteness = (newRgba (nr : Rat) (ng : Rat) (nb : Rat) 1 .infer).whiteness := by
+    simp only [Color.whiteness, Color.red, Color.green, Color.blue, enr, eng, enb, newRgba]
+    try rfl
+  have h3 : c.blackness = (newRgba (nr : Rat) (ng : Rat) (nb : Rat) 1 .infer).blackness := by
+    simp only [Color.blackness, Color.red, Color.green, Color.blue, enr, eng, enb, newRgba]
+    try rfl
+  rw [h1, h2, h3, e1, e4, e5, rt, enr, eng, enb]
+  simp only [scaled_back]
+
+/-- adjust-color by 0 in any single component returns the same colour (`==` and compressed print).
+    The HWB components need a colour without stored HSL (an 8-bit RGB colour): `hue()` of a colour built
+    by hsl() is its exact stored hue while whiteness()/blackness() come from the rounded channels. -/
+theorem C15_adjust_color_by_zero (c d : Color) (hw : c.wf = true) (hc : hslConsistent c) :
+    (updateComponents .adjust c { red := some 0 } = .ok d → sameColor d c = true) ∧
+    (updateComponents .adjust c { green := some 0 } = .ok d → sameColor d c = true) ∧
+    (updateComponents .adjust c { blue := some 0 } = .ok d → sameColor d c = true) ∧
+    (updateComponents .adjust c { alpha := some 0 } = .ok d → sameColor d c = true) ∧
+    (updateComponents .adjust c { hue := some 0 } = .ok d → sameColor d c = true) ∧
+    (updateComponents .adjust c { saturation := some 0 } = .ok d → sameColor d c = true) ∧
+    (updateComponents .adjust c { lightness := some 0 } = .ok d → sameColor d c = true) ∧
+    (c.hsl = none → updateComponents .adjust c { whiteness := some 0 } = .ok d → sameColor d c = true) ∧
+    (c.hsl = none → updateComponents .adjust c { blackness := some 0 } = .ok d → sameColor d c = true) := by
+  have ⟨cr, cg, cb⟩ := wf_chan hw
+  have ⟨_, r0, r1⟩ := chanOk_bounds cr
+  have ⟨_, g0, g1⟩ := chanOk_bounds cg
+  have ⟨_, b0, b1⟩ := chanOk_bounds cb
+  have ⟨a0, a1⟩ := wf_alpha hw
+  have ⟨⟨w0, w1⟩, ⟨k0, k1⟩⟩ := whiteness_blackness_unit hw
+  have ⟨z1, z2, z3, z4, z5⟩ := C15_hsl_functions_by_zero c hw hc
+  have ⟨f1, _, f3, _, f5, f6, _⟩ := C15_functions_are_adjust_color c 0
+  have fr : ∀ x : Rat, chanOk x = true → fuzzyRound x = x := fun x h => fuzzyRound_of_isInt (chanOk_bounds h).1
+  have zc : ∀ x hi : Rat, 0 ≤ x → x ≤ hi → clamp (0 + x) 0 hi = x := by
+    intro x hi h0 h1; rw [clamp_id (by grind) (by grind)]; grind
+  have rgbcase : ∀ p : UpdArgs, p.onlyRgb → (p.red.isSome || p.green.isSome || p.blue.isSome) = true →
+      p.alpha = none → (p.red = none ∨ p.red = some 0) → (p.green = none ∨ p.green = some 0) →
+      (p.blue = none ∨ p.blue = some 0) → updateComponents .adjust c p = .ok d → sameColor d c = true := by
+    intro p ho hs ha h1 h2 h3 hd
+    obtain ⟨d', e, q1, q2, q3, q4⟩ := (C15_adjust_color_adds_and_clamps c p hw).1 ho hs
+    rw [e] at hd; cases hd
+    apply sameColor_of_chan hw
+    · rw [q1]; rcases h1 with h | h <;> simp only [h, adjusted, zc _ _ r0 r1, fr _ cr]
+    · rw [q2]; rcases h2 with h | h <;> simp only [h, adjusted, zc _ _ g0 g1, fr _ cg]
+    · rw [q3]; rcases h3 with h | h <;> simp only [h, adjusted, zc _ _ b0 b1, fr _ cb]
+    · rw [q4, ha]; rfl
+  refine ⟨?_, ?_, ?_, ?_, ?_, ?_, ?_, ?_, ?_⟩
+  · exact rgbcase _ ⟨rfl, rfl, rfl, rfl, rfl⟩ rfl rfl (Or.inr rfl) (Or.inl rfl) (Or.inl rfl)
+  · exact rgbcase _ ⟨rfl, rfl, rfl, rfl, rfl⟩ rfl rfl (Or.inl rfl) (Or.inr rfl) (Or.inl rfl)
+  · exact rgbcase _ ⟨rfl, rfl, rfl, rfl, rfl⟩ rfl rfl (Or.inl rfl) (Or.inl rfl) (Or.inr rfl)
+  · intro h; rw [f6] at h; cases h
+    have ⟨o1, _, _, _, o5, o6, o7, _⟩ := C15_opacify_transparentize_clamp c 0 hw
+    apply sameColor_of_chan hw o5 o6 o7
+    show (fromRgba c.red c.green c.blue (c.alpha + 0)).a = c.alpha
+    simp only [fromRgba, newRgba, add_zero', clamp_id a0 a1]
+  · intro h; rw [f5] at h; cases h; exact z5
+  · intro h; rw [f3] at h; cases h; exact z3
+  · intro h; rw [f1] at h; cases h; exact z1
+  · intro hn h
+    rw [((C15_adjust_color_adds_and_clamps c _ hw).2.2.1) ⟨rfl, rfl, rfl, rfl, rfl⟩ rfl] at h
+    cases h
+    simp only [adjusted, Option.getD, add_zero', zc _ _ w0 w1]
+    have e := hwb_exact_of c hw hn
+    apply sameColor_of_chan hw <;>
+      simp only [fromHwb, e, newRgba, fr _ cr, fr _ cg, fr _ cb, clamp_id a0 a1]
+  · intro hn h
+    rw [((C15_adjust_color_adds_and_clamps c _ hw).2.2.1) ⟨rfl, rfl, rfl, rfl, rfl⟩ rfl] at h
+    cases h
+    simp only [adjusted, Option.getD, add_zero', zc _ _ k0 k1]
+    have e := hwb_exact_of c hw hn
+    apply sameColor_of_chan hw <;>
+      simp only [fromHwb, e, newRgba, fr _ cr, fr _ cg, fr _ cb, clamp_id a0 a1]
+
+theorem isInt_add {x y : Rat} (hx : isInt x = true) (hy : isInt y = true) : isInt (x + y) = true := by
+  rw [eq_intCast_of_isInt hx, eq_intCast_of_isInt hy]
+  have : ((x.num : Int) : Rat) + ((y.num : Int) : Rat) = ((x.num + y.num : Int) : Rat) := by simp [Rat.intCast_add]
+  rw [this]; exact isInt_intCast _
+
+/-- adjust-color with one RGB channel, explicitly -/
+theorem adjust_red_explicit (c : Color) (hw : c.wf = true) (a : Rat) :
+    updateComponents .adjust c { red := some a } = .ok (newRgba (fuzzyRound (clamp (a + c.r) 0 255)) c.g c.b c.alpha .infer) ∧
+    updateComponents .adjust c { green := some a } = .ok (newRgba c.r (fuzzyRound (clamp (a + c.g) 0 255)) c.b c.alpha .infer) ∧
+    updateComponents .adjust c { blue := some a } = .ok (newRgba c.r c.g (fuzzyRound (clamp (a + c.b) 0 255)) c.alpha .infer) ∧
+    updateComponents .adjust c { alpha := some a } = .ok (newRgba c.r c.g c.b (clamp (a + c.alpha) 0 1) .infer) := by
+  have ⟨cr, cg, cb⟩ := wf_chan hw
+  have ⟨er, eg, eb⟩ := wf_red hw
+  have ⟨a0, a1⟩ := wf_alpha hw
+  have fr : ∀ x : Rat, chanOk x = true → fuzzyRound x = x := fun x h => fuzzyRound_of_isInt (chanOk_bounds h).1
+  have st : ∀ v : Rat, clamp (fuzzyRound (clamp v 0 255)) 0 255 = fuzzyRound (clamp v 0 255) := by
+    intro v; have ⟨x0, x1⟩ := clamp_bounds v 0 255 (by decide +kernel); exact stored_chan x0 x1
+  have G := fun p => updatePlan_groups .adjust c p
+  refine ⟨?_, ?_, ?_, ?_⟩
+  · rw [updateComponents, (G _).1 ⟨rfl, rfl, rfl, rfl, rfl⟩ rfl]
+    simp only [Except.map, execPlan, updateValue, fromRgba, newRgba, er, eg, eb, st, fr _ cg, fr _ cb,
+      clamp_chanOk cg, clamp_chanOk cb, clamp_id a0 a1]
+  · rw [updateComponents, (G _).1 ⟨rfl, rfl, rfl, rfl, rfl⟩ rfl]
+    simp only [Except.map, execPlan, updateValue, fromRgba, newRgba, er, eg, eb, st, fr _ cr, fr _ cb,
+      clamp_chanOk cr, clamp_chanOk cb, clamp_id a0 a1]
+  · rw [updateComponents, (G _).1 ⟨rfl, rfl, rfl, rfl, rfl⟩ rfl]
+    simp only [Except.map, execPlan, updateValue, fromRgba, newRgba, er, eg, eb, st, fr _ cr, fr _ cg,
+      clamp_chanOk cr, clamp_chanOk cg, clamp_id a0 a1]
+  · rw [updateComponents, (G _).2.2.2.1 ⟨rfl, rfl, rfl, rfl, rfl, rfl, rfl, rfl⟩ rfl]
+    simp only [Except.map, execPlan, updateValue, withAlpha, fromRgba, newRgba, er, eg, eb,
+      clamp_chanOk cr, clamp_chanOk cg, clamp_chanOk cb, clamp_idem _ 0 1 (by decide +kernel)]
+
+/-- Two successive adjust-color calls on the same channel add up, provided the first one neither
+    rounds (integer amount) nor clamps (`0 ≤ a + channel ≤ 255`, resp. `0 ≤ a + alpha ≤ 1`); the
+    second amount is unrestricted (it is rounded and clamped the same way on both sides). -/
+theorem C15_adjust_color_twice_adds (c d : Color) (hw : c.wf = true) (a b : Rat) :
+    (isInt a = true → 0 ≤ a + c.r → a + c.r ≤ 255 → updateComponents .adjust c { red := some a } = .ok d →
+      updateComponents .adjust d { red := some b } = updateComponents .adjust c { red := some (a + b) }) ∧
+    (isInt a = true → 0 ≤ a + c.g → a + c.g ≤ 255 → updateComponents .adjust c { green := some a } = .ok d →
+      updateComponents .adjust d { green := some b } = updateComponents .adjust c { green := some (a + b) }) ∧
+    (isInt a = true → 0 ≤ a + c.b → a + c.b ≤ 255 → updateComponents .adjust c { blue := some a } = .ok d →
+      updateComponents .adjust d { blue := some b } = updateComponents .adjust c { blue := some (a + b) }) ∧
+    (0 ≤ a + c.alpha → a + c.alpha ≤ 1 → updateComponents .adjust c { alpha := some a } = .ok d →
+      updateComponents .adjust d { alpha := some b } = updateComponents .adjust c { alpha := some (a + b) }) := by
+  have ⟨cr, cg, cb⟩ := wf_chan hw
+  have ⟨a0, a1⟩ := wf_alpha hw
+  have ⟨x1, x2, x3, x4⟩ := adjust_red_explicit c hw a
+  have ⟨y1, y2, y3, y4⟩ := adjust_red_explicit c hw (a + b)
+  refine ⟨?_, ?_, ?_, ?_⟩
+  · intro ia h0 h1 hd
+    rw [x1] at hd; cases hd
+    have ii : isInt (a + c.r) = true := isInt_add ia (chanOk_bounds cr).1
+    have e : fuzzyRound (clamp (a + c.r) 0 255) = a + c.r := by rw [clamp_id h0 h1]; exact fuzzyRound_of_isInt ii
+    have okr : chanOk (a + c.r) = true := by simp [chanOk, ii, h0, h1]
+    have dw : (newRgba (a + c.r) c.g c.b c.alpha .infer).wf = true := wf_mk okr cg cb a0 a1
+    rw [e, (adjust_red_explicit _ dw b).1, y1]
+    have al : (newRgba (a + c.r) c.g c.b c.alpha .infer).alpha = c.alpha := alpha_of_le_one (c := newRgba _ _ _ _ _) a1
+    have re : b + (a + c.r) = a + b + c.r := by grind
+    simp only [al]
+    simp only [newRgba, re]
+  · intro ia h0 h1 hd
+    rw [x2] at hd; cases hd
+    have ii : isInt (a + c.g) = true := isInt_add ia (chanOk_bounds cg).1
+    have e : fuzzyRound (clamp (a + c.g) 0 255) = a + c.g := by rw [clamp_id h0 h1]; exact fuzzyRound_of_isInt ii
+    have okr : chanOk (a + c.g) = true := by simp [chanOk, ii, h0, h1]
+    have dw : (newRgba c.r (a + c.g) c.b c.alpha .infer).wf = true := wf_mk cr okr cb a0 a1
+    rw [e, (adjust_red_explicit _ dw b).2.1, y2]
+    have al : (newRgba c.r (a + c.g) c.b c.alpha .infer).alpha = c.alpha := alpha_of_le_one (c := newRgba _ _ _ _ _) a1
+    have re : b + (a + c.g) = a + b + c.g := by grind
+    simp only [al]
+    simp only [newRgba, re]
+  · intro ia h0 h1 hd
+    rw [x3] at hd; cases hd
+    have ii : isInt (a + c.b) = true := isInt_add ia (chanOk_bounds cb).1
+    have e : fuzzyRound (clamp (a + c.b) 0 255) = a + c.b := by rw [clamp_id h0 h1]; exact fuzzyRound_of_isInt ii
+    have okr : chanOk (a + c.b) = true := by simp [chanOk, ii, h0, h1]
+    have dw : (newRgba c.r c.g (a + c.b) c.alpha .infer).wf = true := wf_mk cr cg okr a0 a1
+    rw [e, (adjust_red_explicit _ dw b).2.2.1, y3]
+    have al : (newRgba c.r c.g (a + c.b) c.alpha .infer).alpha = c.alpha := alpha_of_le_one (c := newRgba _ _ _ _ _) a1
+    have re : b + (a + c.b) = a + b + c.b := by grind
+    simp only [al]
+    simp only [newRgba, re]
+  · intro h0 h1 hd
+    rw [x4] at hd; cases hd
+    rw [clamp_id h0 h1]
+    have dw : (newRgba c.r c.g c.b (a + c.alpha) .infer).wf = true := wf_mk cr cg cb h0 h1
+    rw [(adjust_red_explicit _ dw b).2.2.2, y4]
+    have al : (newRgba c.r c.g c.b (a + c.alpha) .infer).alpha = a + c.alpha := alpha_of_le_one (c := newRgba _ _ _ _ _) h1
+    have re : b + (a + c.alpha) = a + b + c.alpha := by grind
+    simp only [al]
+    simp only [newRgba, re]
+
+/-- scale-color arguments after `check_num`: within −100%…100%, i.e. [−1,1] -/
+def UpdArgs.scaleOk (p : UpdArgs) : Prop :=
+  (∀ x, p.red = some x → -1 ≤ x ∧ x ≤ 1) ∧ (∀ x, p.green = some x → -1 ≤ x ∧ x ≤ 1) ∧
+  (∀ x, p.blue = some x → -1 ≤ x ∧ x ≤ 1) ∧ (∀ x, p.alpha = some x → -1 ≤ x ∧ x ≤ 1)
+
+/-- the scaled value moves `x` (a fraction in [−1,1]) of the way towards `max` (x > 0) or 0 (x ≤ 0) and
+    stays in range -/
+theorem scaled_facts {cur max x : Rat} (h0 : 0 ≤ cur) (h1 : cur ≤ max) (x0 : -1 ≤ x) (x1 : x ≤ 1) :
+    (0 < x → scaled cur (some x) max - cur = x * (max - cur)) ∧
+    (x ≤ 0 → cur - scaled cur (some x) max = (-x) * (cur - 0)) ∧
+    0 ≤ scaled cur (some x) max ∧ scaled cur (some x) max ≤ max := by
+  simp only [scaled]
+  refine ⟨?_, ?_, ?_, ?_⟩
+  · intro h; rw [if_pos h]; grind
+  · intro h; rw [if_neg (by grind)]; grind
+  · split
+    · have := Rat.mul_nonneg (a := max - cur) (b := x) (by grind) (by grind); grind
+    · have := Rat.mul_le_mul_of_nonneg_left (a := -1) (b := x) (c := cur) x0 h0; grind
+  · split
+    · have := Rat.mul_le_mul_of_nonneg_left (a := x) (b := 1) (c := max - cur) x1 (by grind); grind
+    · have := Rat.mul_le_mul_of_nonneg_left (a := x) (b := 0) (c := cur) (by grind) h0; grind
+
+theorem scaled_bounds {cur max : Rat} {v : Option Rat} (h0 : 0 ≤ cur) (h1 : cur ≤ max)
+    (hv : ∀ x, v = some x → -1 ≤ x ∧ x ≤ 1) : 0 ≤ scaled cur v max ∧ scaled cur v max ≤ max := by
+  cases v with
+  | none => exact ⟨h0, h1⟩
+  | some x => have ⟨a, b⟩ := hv x rfl; exact (scaled_facts h0 h1 a b).2.2
+
+/-- **(3) scale-color interpolates.**  The new value of a component is
+    `current + p·(max − current)` for p > 0 and `current + p·current` for p ≤ 0 (p the percentage / 100):
+    0% keeps it, 100% reaches the maximum, −100% reaches 0, anything between stays in range and moves
+    that fraction of the way.  RGB group: each given channel becomes the rounded scaled value, the rest is
+    kept; HSL/HWB groups: the constructor receives the scaled saturation/lightness (whiteness/blackness);
+    alpha alone: channels kept. -/
+theorem C15_scale_color_interpolates (c : Color) (p : UpdArgs) (hw : c.wf = true) (hp : p.scaleOk) :
+    (∀ cur max : Rat, scaled cur (some 0) max = cur ∧ scaled cur (some 1) max = max ∧ scaled cur (some (-1)) max = 0) ∧
+    (∀ cur max x : Rat, 0 ≤ cur → cur ≤ max → -1 ≤ x → x ≤ 1 →
+      (0 < x → scaled cur (some x) max - cur = x * (max - cur)) ∧
+      (x ≤ 0 → cur - scaled cur (some x) max = (-x) * (cur - 0)) ∧
+      0 ≤ scaled cur (some x) max ∧ scaled cur (some x) max ≤ max) ∧
+    (p.onlyRgb → (p.red.isSome || p.green.isSome || p.blue.isSome) = true →
+      ∃ d, updateComponents .scale c p = .ok d ∧ d.r = fuzzyRound (scaled c.r p.red 255) ∧
+        d.g = fuzzyRound (scaled c.g p.green 255) ∧ d.b = fuzzyRound (scaled c.b p.blue 255) ∧
+        d.a = scaled c.alpha p.alpha 1) ∧
+    (p.onlyHsl → p.hue = none → (p.saturation.isSome || p.lightness.isSome) = true →
+      updateComponents .scale c p = .ok (fromHsla (c.asHsla.1 + 0) (scaled c.asHsla.2.1 p.saturation 1)
+        (scaled c.asHsla.2.2.1 p.lightness 1) (scaled c.alpha p.alpha 1))) ∧
+    (p.onlyHwb → p.hue = none → (p.whiteness.isSome || p.blackness.isSome) = true →
+      updateComponents .scale c p = .ok (fromHwb (c.hue + 0) (scaled c.whiteness p.whiteness 1 * 100)
+        (scaled c.blackness p.blackness 1 * 100) (scaled c.alpha p.alpha 1))) ∧
+    (p.onlyAlpha → ∀ a, p.alpha = some a →
+      ∃ d, updateComponents .scale c p = .ok d ∧ d.r = c.r ∧ d.g = c.g ∧ d.b = c.b ∧ d.a = scaled c.alpha (some a) 1) := by
+  have ⟨cr, cg, cb⟩ := wf_chan hw
+  have ⟨er, eg, eb⟩ := wf_red hw
+  have ⟨a0, a1⟩ := wf_alpha hw
+  have ⟨_, r0, r1⟩ := chanOk_bounds cr
+  have ⟨_, g0, g1⟩ := chanOk_bounds cg
+  have ⟨_, b0, b1⟩ := chanOk_bounds cb
+  obtain ⟨pr, pg, pb, pa⟩ := hp
+  have G := updatePlan_groups .scale c p
+  have ne : ¬ (Upd.scale = Upd.change) := by decide
+  refine ⟨?_, ?_, ?_, ?_, ?_, ?_⟩
+  · intro cur max
+    simp only [scaled]
+    refine ⟨?_, ?_, ?_⟩
+    · grind
+    · rw [if_pos (by decide +kernel)]; grind
+    · rw [if_neg (by decide +kernel)]; grind
+  · intro cur max x h0 h1 x0 x1; exact scaled_facts h0 h1 x0 x1
+  · intro ho hs
+    refine ⟨_, by rw [updateComponents, G.1 ho hs]; rfl, ?_⟩
+    simp only [execPlan, fromRgba, newRgba, (updateValue_eq _ _ _).2.2, er, eg, eb]
+    have br := scaled_bounds (v := p.red) r0 r1 pr
+    have bg := scaled_bounds (v := p.green) g0 g1 pg
+    have bb := scaled_bounds (v := p.blue) b0 b1 pb
+    have ba := scaled_bounds (v := p.alpha) a0 a1 pa
+    rw [stored_chan br.1 br.2, stored_chan bg.1 bg.2, stored_chan bb.1 bb.2, clamp_id ba.1 ba.2]
+    refine ⟨?_, ?_, ?_, ?_⟩ <;> first | trivial | rfl
+  · intro ho hh hs
+    rw [updateComponents, G.2.2.1 ho (by simp [hh]; simpa using hs)]
+    simp only [Except.map, execPlan, (updateValue_eq _ _ _).2.2, if_neg ne, asHsla_alpha, hh, Option.getD]
+  · intro ho hh hs
+    rw [updateComponents, G.2.1 ho hs]
+    simp only [Except.map, execPlan, (updateValue_eq _ _ _).2.2, if_neg ne, hh, Option.getD]
+  · intro ho a ha
+    have hs : p.alpha.isSome = true := by rw [ha]; rfl
+    refine ⟨_, by rw [updateComponents, G.2.2.2.1 ho hs]; rfl, ?_⟩
+    have ⟨x0, x1⟩ := scaled_bounds (v := some a) a0 a1 (fun x hx => pa x (by rw [ha]; exact hx))
+    simp only [execPlan, withAlpha, fromRgba, newRgba, (updateValue_eq _ _ _).2.2, ha, er, eg, eb,
+      clamp_chanOk cr, clamp_chanOk cg, clamp_chanOk cb, clamp_id x0 x1]
+    refine ⟨?_, ?_, ?_, ?_⟩ <;> first | trivial | rfl
+
+/-- scale-color by 0% in any single component returns the same colour (HWB components: colours without
+    stored HSL, as for adjust-color). -/
+theorem C15_scale_color_by_zero (c d : Color) (hw : c.wf = true) (hc : hslConsistent c) :
+    (updateComponents .scale c { red := some 0 } = .ok d → sameColor d c = true) ∧
+    (updateComponents .scale c { green := some 0 } = .ok d → sameColor d c = true) ∧
+    (updateComponents .scale c { blue := some 0 } = .ok d → sameColor d c = true) ∧
+    (updateComponents .scale c { alpha := some 0 } = .ok d → sameColor d c = true) ∧
+    (updateComponents .scale c { saturation := some 0 } = .ok d → sameColor d c = true) ∧
+    (updateComponents .scale c { lightness := some 0 } = .ok d → sameColor d c = true) ∧
+    (c.hsl = none → updateComponents .scale c { whiteness := some 0 } = .ok d → sameColor d c = true) ∧
+    (c.hsl = none → updateComponents .scale c { blackness := some 0 } = .ok d → sameColor d c = true) := by
+  have ⟨cr, cg, cb⟩ := wf_chan hw
+  have ⟨a0, a1⟩ := wf_alpha hw
+  have fr : ∀ x : Rat, chanOk x = true → fuzzyRound x = x := fun x h => fuzzyRound_of_isInt (chanOk_bounds h).1
+  have z : ∀ cur max : Rat, scaled cur (some 0) max = cur := fun cur max => by simp only [scaled]; grind
+  have okz : ∀ x : Rat, some (0 : Rat) = some x → -1 ≤ x ∧ x ≤ 1 := by
+    intro x h; cases h; constructor <;> decide +kernel
+  have no : ∀ x : Rat, (none : Option Rat) = some x → -1 ≤ x ∧ x ≤ 1 := fun _ h => by cases h
+  have ⟨k1, k2, k3, k4⟩ := rebuild c hw hc
+  rw [asHsla_alpha c] at k1 k2 k3 k4
+  have rgbcase : ∀ p : UpdArgs, p.scaleOk → p.onlyRgb → (p.red.isSome || p.green.isSome || p.blue.isSome) = true →
+      p.alpha = none → (p.red = none ∨ p.red = some 0) → (p.green = none ∨ p.green = some 0) →
+      (p.blue = none ∨ p.blue = some 0) → updateComponents .scale c p = .ok d → sameColor d c = true := by
+    intro p pk ho hs ha h1 h2 h3 hd
+    obtain ⟨d', e, q1, q2, q3, q4⟩ := (C15_scale_color_interpolates c p hw pk).2.2.1 ho hs
+    rw [e] at hd; cases hd
+    apply sameColor_of_chan hw
+    · rw [q1]; rcases h1 with h | h
+      · simp only [h, scaled, fr _ cr]
+      · simp only [h, z, fr _ cr]
+    · rw [q2]; rcases h2 with h | h
+      · simp only [h, scaled, fr _ cg]
+      · simp only [h, z, fr _ cg]
+    · rw [q3]; rcases h3 with h | h
+      · simp only [h, scaled, fr _ cb]
+      · simp only [h, z, fr _ cb]
+    · rw [q4, ha]; rfl
+  refine ⟨?_, ?_, ?_, ?_, ?_, ?_, ?_, ?_⟩
+  · exact rgbcase _ ⟨okz, no, no, no⟩ ⟨rfl, rfl, rfl, rfl, rfl⟩ rfl rfl (Or.inr rfl) (Or.inl rfl) (Or.inl rfl)
+  · exact rgbcase _ ⟨no, okz, no, no⟩ ⟨rfl, rfl, rfl, rfl, rfl⟩ rfl rfl (Or.inl rfl) (Or.inr rfl) (Or.inl rfl)
+  · exact rgbcase _ ⟨no, no, okz, no⟩ ⟨rfl, rfl, rfl, rfl, rfl⟩ rfl rfl (Or.inl rfl) (Or.inl rfl) (Or.inr rfl)
+  · intro h
+    obtain ⟨d', e, q1, q2, q3, q4⟩ := (C15_scale_color_interpolates c { alpha := some 0 } hw ⟨no, no, no, okz⟩).2.2.2.2.2
+      ⟨rfl, rfl, rfl, rfl, rfl, rfl, rfl, rfl⟩ 0 rfl
+    rw [e] at h; cases h
+    exact sameColor_of_chan hw q1 q2 q3 (by rw [q4, z])
+  · intro h
+    rw [(C15_scale_color_interpolates c { saturation := some 0 } hw ⟨no, no, no, no⟩).2.2.2.1 ⟨rfl, rfl, rfl, rfl, rfl⟩ rfl rfl] at h
+    cases h
+    simp only [z, add_zero']
+    simp only [scaled]
+    exact sameColor_of_chan hw k1 k2 k3 (by rw [k4])
+  · intro h
+    rw [(C15_scale_color_interpolates c { lightness := some 0 } hw ⟨no, no, no, no⟩).2.2.2.1 ⟨rfl, rfl, rfl, rfl, rfl⟩ rfl rfl] at h
+    cases h
+    simp only [z, add_zero']
+    simp only [scaled]
+    exact sameColor_of_chan hw k1 k2 k3 (by rw [k4])
+  · intro hn h
+    rw [(C15_scale_color_interpolates c { whiteness := some 0 } hw ⟨no, no, no, no⟩).2.2.2.2.1 ⟨rfl, rfl, rfl, rfl, rfl⟩ rfl rfl] at h
+    cases h
+    simp only [z, add_zero']
+    simp only [scaled]
+    have e := hwb_exact_of c hw hn
+    apply sameColor_of_chan hw <;>
+      simp only [fromHwb, e, newRgba, fr _ cr, fr _ cg, fr _ cb, clamp_id a0 a1]
+  · intro hn h
+    rw [(C15_scale_color_interpolates c { blackness := some 0 } hw ⟨no, no, no, no⟩).2.2.2.2.1 ⟨rfl, rfl, rfl, rfl, rfl⟩ rfl rfl] at h
+    cases h
+    simp only [z, add_zero']
+    simp only [scaled]
+    have e := hwb_exact_of c hw hn
+    apply sameColor_of_chan hw <;>
+      simp only [fromHwb, e, newRgba, fr _ cr, fr _ cg, fr _ cb, clamp_id a0 a1]
+
+/-- Mixing argument groups in one call is an error, for change-, adjust- and scale-color alike
+    (other.rs:150–171): RGB arguments with any HSL/HWB argument or `$hue`; saturation/lightness with
+    whiteness/blackness. -/
+theorem C15_update_mixed_groups_error (u : Upd) (c : Color) (p : UpdArgs) :
+    ((p.red.isSome || p.green.isSome || p.blue.isSome) = true →
+      (p.hue.isSome || p.saturation.isSome || p.lightness.isSome || p.whiteness.isSome || p.blackness.isSome) = true →
+      updateComponents u c p = .error .mixedSpaces) ∧
+    ((p.saturation.isSome || p.lightness.isSome) = true → (p.whiteness.isSome || p.blackness.isSome) = true →
+      updateComponents u c p = .error .mixedSpaces) := by
+  constructor
+  · intro h1 h2
+    have h2' : ((p.saturation.isSome || p.lightness.isSome) || (p.whiteness.isSome || p.blackness.isSome) || p.hue.isSome) = true := by
+      revert h2; cases p.hue.isSome <;> cases p.saturation.isSome <;> cases p.lightness.isSome <;>
+        cases p.whiteness.isSome <;> cases p.blackness.isSome <;> simp
+    simp only [updateComponents, updatePlan, h1, h2', Bool.and_self, if_true]
+    rfl
+  · intro h1 h2
+    simp only [updateComponents, updatePlan, h1, h2, Bool.and_self, if_true]
+    split <;> rfl
+
+example : updateComponents .scale (newRgba 1 2 3 1 .infer) { red := some (1/2), lightness := some (1/2) } = .error .mixedSpaces :=
+  (C15_update_mixed_groups_error _ _ _).1 rfl rfl
+
+/-- the saturation `as_hsla` reports is in [0,1] for colours satisfying the invariants -/
+theorem asHsla_sat_le_one (c : Color) (hw : c.wf = true) (hc : hslConsistent c) : c.asHsla.2.1 ≤ 1 := by
+  unfold Color.asHsla
+  cases hh : c.hsl with
+  | some h =>
+    unfold hslConsistent at hc; rw [hh] at hc
+    exact hc.2.2.2.1
+  | none =>
+    have ⟨cr, cg, cb⟩ := wf_chan hw
+    have ⟨er, eg, eb⟩ := wf_red hw
+    obtain ⟨nr, hnr, enr⟩ := chanOk_nat cr
+    obtain ⟨ng, hng, eng⟩ := chanOk_nat cg
+    obtain ⟨nb, hnb, enb⟩ := chanOk_nat cb
+    have ⟨r0, r1⟩ := unit_of_nat hnr
+    have ⟨g0, g1⟩ := unit_of_nat hng
+    have ⟨b0, b1⟩ := unit_of_nat hnb
+    simp only [er, eg, eb, enr, eng, enb]
+    rw [rgbToHsl_eq_E (sep_of_nat nr ng nb) r0 r1 g0 g1 b0 b1]
+    have F := minmax_facts ((nr : Rat) / 255) ((ng : Rat) / 255) ((nb : Rat) / 255)
+    simp only [rgbToHslE]
+    generalize min3 ((nr : Rat) / 255) ((ng : Rat) / 255) ((nb : Rat) / 255) = mn at F ⊢
+    generalize max3 ((nr : Rat) / 255) ((ng : Rat) / 255) ((nb : Rat) / 255) = mx at F ⊢
+    obtain ⟨f1, f2, f3, f4, f5, f6, f7, f8⟩ := F
+    split
+    · decide +kernel
+    · split <;> apply div_le_one' <;> grind
+
+/-- **(5a)** grayscale($c) is desaturate($c, 100%) (builtin/functions/color/hsl.rs:275), and its result
+    is a grey: the three channels are equal. -/
+theorem C15_grayscale_is_desaturate_100 (c : Color) (hw : c.wf = true) (hc : hslConsistent c) :
+    applyFn "grayscale" [.color c] [] = .ok (.color (desaturate c 1)) ∧
+    (desaturate c 1).r = (desaturate c 1).g ∧ (desaturate c 1).g = (desaturate c 1).b := by
+  refine ⟨rfl, ?_⟩
+  have ⟨_, _, _, e4, _, _⟩ := hslFns_eq c 1
+  have s1 := asHsla_sat_le_one c hw hc
+  have cz : clamp (c.asHsla.2.1 - 1) 0 1 = 0 := by
+    rcases clamp_cases (c.asHsla.2.1 - 1) 0 1 (by decide +kernel) with ⟨e, a, _⟩ | ⟨e, _⟩ | ⟨e, a⟩ <;> grind
+  have ⟨f1, f2, f3, _, _⟩ := fromHsla_fields c.asHsla.1 0 c.asHsla.2.2.1 c.asHsla.2.2.2
+  rw [e4, cz, f1, f2, f3]
+  have c0 : clamp 0 0 1 = 0 := by decide +kernel
+  simp only [hslToRgbExact, c0]
+  generalize clamp c.asHsla.2.2.1 0 1 = l
+  have m2 : (if l ≤ 1 / 2 then l * (0 + 1) else l * -0 + (l + 0)) = l := by split <;> grind
+  have m1 : l * 2 + -l = l := by grind
+  simp only [m2, m1, hueToRgb_const]
+  exact ⟨trivial, trivial⟩
+
+example : ((desaturate (newRgba 18 52 87 1 .infer) 1).r, (desaturate (newRgba 18 52 87 1 .infer) 1).g) = (53, 53) := by
+  decide +kernel
+
+theorem mix_congr {f : Bool} {c1 c1' c2 : Color} {w : Rat} (hr : c1.red = c1'.red) (hg : c1.green = c1'.green)
+    (hb : c1.blue = c1'.blue) (ha : c1.alpha = c1'.alpha) : mix f c1 c2 w = mix f c1' c2 w := by
+  simp only [mix, mixPre, hr, hg, hb, ha]
+
+/-- **(5b)** invert($c, $w) for a non-zero weight is mix(invert($c), $c, $w) — with the fully inverted
+    colour as first operand (color/mod.rs:417–428); weight 0 returns `$c` itself. -/
+theorem C15_invert_weight (c : Color) (w : Rat) (hw : c.wf = true) :
+    (fuzzyEq w 0 = true → invert false c w = c) ∧
+    (fuzzyEq w 0 = false → invert false c w = mix false (invert false c 1) c w) := by
+  constructor
+  · intro h; simp only [invert, h, if_true]
+  · intro h
+    have ⟨cr, cg, cb⟩ := wf_chan hw
+    have ⟨er, eg, eb⟩ := wf_red hw
+    have ⟨a0, a1⟩ := wf_alpha hw
+    have ⟨i1, i2, i3, i4⟩ := invert_full c hw
+    have iw := (C15_channels_in_range_invert c 1 hw).1
+    have ⟨jr, jg, jb⟩ := wf_red iw
+    have ja : (invert false c 1).alpha = c.alpha := by rw [alpha_of_le_one (by rw [i4]; exact a1), i4]
+    have kr : (inverseOf c).red = 255 - c.r := by
+      show roundQ (255 - c.red) = 255 - c.r
+      rw [er]; exact roundQ_of_isInt (chanOk_bounds (chanOk_255_sub cr)).1
+    have kg : (inverseOf c).green = 255 - c.g := by
+      show roundQ (255 - c.green) = 255 - c.g
+      rw [eg]; exact roundQ_of_isInt (chanOk_bounds (chanOk_255_sub cg)).1
+    have kb : (inverseOf c).blue = 255 - c.b := by
+      show roundQ (255 - c.blue) = 255 - c.b
+      rw [eb]; exact roundQ_of_isInt (chanOk_bounds (chanOk_255_sub cb)).1
+    have ka : (inverseOf c).alpha = c.alpha := alpha_of_le_one (c := inverseOf c) a1
+    have e : invert false c w = mix false (inverseOf c) c w := by
+      simp only [invert, h, Bool.false_eq_true, if_false]
+    rw [e]
+    exact mix_congr (by rw [kr, jr, i1]) (by rw [kg, jg, i2]) (by rw [kb, jb, i3]) (by rw [ka, ja])
+
 /-! ## 11. The variants found on the pinned tree violate the property (kernel-checked witnesses) -/
 
 /-- D21 as found: `mix(#000, #020202, 25%)` kept fractional channels (1.5): not in range, `red()` = 2,
